@@ -120,7 +120,7 @@ def make_callable(spec: T.Spec, tree: ast.Module):
     mod = load_module(spec.file)
     parts = spec.path.split(".")
     node = T.find_def(tree, spec.path)
-    is_slice = bool(spec.first or spec.last)
+    is_slice = bool(spec.first or spec.last) or spec.arg_of is not None
     # plain function or method: call the real object
     if not is_slice:
         obj = mod
@@ -137,7 +137,11 @@ def make_callable(spec: T.Spec, tree: ast.Module):
             return lambda s, *a: obj(*a)
     needs_self = bool(spec.struct) or is_slice
     argnames = (["self"] if needs_self else []) + [n for n, _ in spec.params]
-    if is_slice:
+    if spec.arg_of is not None:
+        tgt, kk = spec.arg_of
+        cand = [st for st in node.body if tgt in T.assigned_names(st)]
+        body = [ast.Return(value=cand[0].value.args[kk])]
+    elif is_slice:
         stmts = T.slice_body(node.body, spec.first, spec.last)
         outs = []
         for o in spec.outputs:
@@ -169,8 +173,21 @@ def make_callable(spec: T.Spec, tree: ast.Module):
         names = [n for n, _ in spec.params]
         varmap = {k[5:]: v[1] for k, v in spec.env.items() if k.startswith("self.") and v[0] == "var" and "(" not in k}
 
+        tv = {k: v[1] for k, v in spec.env.items() if k.startswith("self.") and v[0] == "tuplevars"}
+
         def call(s, *a):
             ns = SimpleNamespace(**{attr: a[names.index(pn)] for attr, pn in varmap.items() if pn in names})
+            for key, pnames in tv.items():
+                toks = tokens(key)
+                root = getattr(ns, toks[0], None)
+                if not isinstance(root, PathNode):
+                    root = PathNode()
+                    setattr(ns, toks[0], root)
+                nd = root
+                for t in toks[1:]:
+                    nd = (nd._calls if t.startswith("(") else nd._attrs).setdefault(t, PathNode())
+                vals = tuple(a[names.index(pn)] if pn in names else 0.0 for pn in pnames)
+                nd._leaf = (lambda *x, vals=vals: vals)
             return frag(ns, *a)
         return call
     return lambda s, *a: frag(*a)
